@@ -397,7 +397,7 @@ func specLkAfter(kind, lk int) int {
 //@ contract Parse
 //@   requires $private
 //@   requires len(data) < 1<<32
-//@   ensures result1 == nil ==> result0 != nil
+//@   ensures result1 == nil ==> result0 != nil && result0.Meta != nil && result0.Count != nil
 //@   ensures result1 != nil ==> result0 == nil
 //@   loop 1: invariant -1 <= rangeindex && rangeindex < len(lines)
 //@   loop 1: decreases len(lines)-rangeindex
@@ -540,6 +540,7 @@ func specMapped(m *mappedFile) bool {
 //@   requires 0 <= c.depth && c.depth <= 1<<20
 //@   requires c.file != nil
 //@   requires $rd == 0 && $lk == 0
+//@   requires forall i int :: 0 <= i && i < len(c.stacks) && c.stacks[i].counter != nil ==> c.stacks[i].counter.file != nil
 //@   loop 1: invariant -1 <= rangeindex && rangeindex < len(c.stacks)
 //@   loop 1: decreases len(c.stacks)-rangeindex
 //@   modifies heap
